@@ -229,6 +229,76 @@ static uint64_t prop_digest_rec(const vnaproperty_t *node, uint64_t h, int depth
     return h;
 }
 
+/* textual dump of a property tree through the public API (faulted replays: state before the op under test, "S0", and
+ * after the failed call, "S1"; lib/mem_gen.py classifies the transition).  scalar: s<hex>, null: ~, list: [a,b], map:
+ * {<hexkey>:v,...} in the order of vnaproperty_keys.  Returns false when the buffer is too small. */
+static bool dump_put(char *buf, size_t cap, size_t *pos, const char *s, size_t n)
+{
+    if (*pos + n + 1 >= cap) return false;
+    memcpy(buf + *pos, s, n); *pos += n; buf[*pos] = 0;
+    return true;
+}
+static bool dump_hex(char *buf, size_t cap, size_t *pos, const char *s)
+{
+    static const char hx[] = "0123456789abcdef";
+    for (; *s; ++s) {
+	char two[2] = { hx[((unsigned char)*s) >> 4], hx[((unsigned char)*s) & 15] };
+	if (!dump_put(buf, cap, pos, two, 2)) return false;
+    }
+    return true;
+}
+static bool prop_dump_rec(const vnaproperty_t *node, char *buf, size_t cap, size_t *pos, int depth)
+{
+    if (node == NULL) return dump_put(buf, cap, pos, "~", 1);
+    if (depth > 12) return false;
+    int t;
+    LIB(t = vnaproperty_type(node, "."));
+    if (t == 's') {
+	const char *s;
+	LIB(s = vnaproperty_get(node, "."));
+	return dump_put(buf, cap, pos, "s", 1) && dump_hex(buf, cap, pos, s ? s : "");
+    } else if (t == 'l') {
+	int n;
+	LIB(n = vnaproperty_count(node, "."));
+	if (!dump_put(buf, cap, pos, "[", 1)) return false;
+	for (int i = 0; i < n; ++i) {
+	    vnaproperty_t *sub;
+	    LIB(sub = vnaproperty_get_subtree(node, "[%d]", i));
+	    if (i > 0 && !dump_put(buf, cap, pos, ",", 1)) return false;
+	    if (!prop_dump_rec(sub, buf, cap, pos, depth + 1)) return false;
+	}
+	return dump_put(buf, cap, pos, "]", 1);
+    } else if (t == 'm') {
+	const char **keys;
+	bool ok = true;
+	LIB(keys = vnaproperty_keys(node, "."));
+	if (keys == NULL) return false;
+	ok = dump_put(buf, cap, pos, "{", 1);
+	for (const char **k = keys; ok && *k; ++k) {
+	    char *q;
+	    vnaproperty_t *sub = NULL;
+	    if (k != keys) ok = dump_put(buf, cap, pos, ",", 1);
+	    ok = ok && dump_hex(buf, cap, pos, *k) && dump_put(buf, cap, pos, ":", 1);
+	    LIB(q = vnaproperty_quote_key(*k));
+	    if (q == NULL) { ok = false; break; }
+	    LIB(sub = vnaproperty_get_subtree(node, "%s", q));
+	    free(q);
+	    ok = ok && prop_dump_rec(sub, buf, cap, pos, depth + 1);
+	}
+	free((void *)keys);
+	return ok && dump_put(buf, cap, pos, "}", 1);
+    }
+    return false;
+}
+static void prop_dump_line(const char *tag, long idx, const vnaproperty_t *root)
+{
+    static char dbuf[65536];
+    size_t pos = 0;
+    dbuf[0] = 0;
+    if (prop_dump_rec(root, dbuf, sizeof dbuf, &pos, 0)) printf("%s %ld %s\n", tag, idx, dbuf);
+    else printf("%s %ld ?\n", tag, idx);
+}
+
 /* ------------------------------------------------------------------ matrices for vnacal_new_add_* / apply */
 typedef struct { double complex **v; int cells; } mat_t;
 static mat_t mat_alloc(int rows, int cols, int freqs)
@@ -386,6 +456,7 @@ static void do_op(const char *op)
 	     * is rehashed while the key vector is held), 3 delete in reverse order, 4 replace the map by a scalar at the first key and go on */
 	    char *e = gets_(); int mode = geti(); const char **k; int nfail = 0, n = 0;
 	    if (!e) { r_skip(); return; }
+	    if (mode < 0 || mode > 4) mode = 4;		/* (a mutated script: any other number is mode 4, with its guard against the dangling keys) */
 	    LIB(k = vnaproperty_keys(P[p], "%s", e));
 	    if (k == NULL) { GETTER_FAILED(); }
 	    while (k[n] != NULL) ++n;
@@ -965,6 +1036,16 @@ static void do_op(const char *op)
     r_skip();
 }
 
+/* root of the property tree the op under test works on: a tree slot, or the properties of a vnacal_t / one of its calibrations */
+static const vnaproperty_t *target_root(const char *op, int slot)
+{
+    if (op[0] == 'p') return P[slot];
+    vnaproperty_t *r = NULL;
+    int ci = (int)strtol(toks[2], NULL, 10);
+    LIB(r = vnacal_property_get_subtree(C[slot], ci, "."));
+    return r;
+}
+
 /* per-op watchdog: an op that burns more than OP_CPU_SECONDS of processor time (endless loop / unbounded recursion) ends the
  * process with SIGPROF (default action), which lib/mem_gen.py reports as a timeout of that op; processor time, not wall time,
  * so that a loaded machine cannot raise a false alarm */
@@ -999,6 +1080,10 @@ int main(int argc, char **argv)
 	    for (char *q = strtok(linebuf, " "); q != NULL && ntok < 64; q = strtok(NULL, " ")) toks[ntok++] = q;
 	    if (ntok == 0) break;
 	    const char *op = tok();
+	    /* op under test on a property tree: its state before the call (S0) and, below, after the failed call (S1) */
+	    int pslot = (idx == target && (op[0] == 'p' || !strncmp(op, "cpset", 5)) && ntok >= 2) ? (int)strtol(toks[1], NULL, 10) : -1;
+	    if (pslot < 0 || pslot >= (op[0] == 'p' ? NP : NC) || (op[0] == 'c' && (C[pslot] == NULL || ntok < 3))) pslot = -1;
+	    if (pslot >= 0 && pass == 0) prop_dump_line("S0", idx, target_root(op, pslot));
 	    cb_count = 0;
 	    verif_alloc_reset((idx == target && pass == 0) ? k : 0);
 	    watchdog(OP_CPU_SECONDS);
@@ -1013,7 +1098,12 @@ int main(int argc, char **argv)
 	    printf("\n");
 	    if (idx == target && pass == 0) {
 		printf("F %ld injected=%ld failed=%d\n", idx, injected, op_failed ? 1 : 0);
-		if (injected && op_failed) continue;	/* repeat without the fault */
+		if (injected && op_failed) {		/* repeat without the fault */
+		    bool keep_failed = op_failed;
+		    if (pslot >= 0) prop_dump_line("S1", idx, target_root(op, pslot));
+		    op_failed = keep_failed;
+		    continue;
+		}
 	    }
 	    break;
 	}
